@@ -26,6 +26,10 @@ func (n *Nodis) Del(keys ...string) int64 {
 			}
 			tx.delKey(key)
 			c++
+			deleted := key
+			n.notify(func() []patch.Op {
+				return []patch.Op{{Type: patch.OpTypeDel, Data: &patch.OpDel{Key: deleted}}}
+			})
 		}
 		return nil
 	})
